@@ -465,8 +465,12 @@ read_chunk()
         state_ = ReadState::ErrorChunkTooBig;
         return;
     }
-    assert(header.compression == 0);
-    assert(header.version == 0);
+    if (header.compression != 0) {
+        // not specified yet, must always be 0
+        state_ = ReadState::ErrorInvalidFile;
+        error_msg_ = "Chunk compression is not supported, compression field must be 0";
+        return;
+    }
     auto chunk_reader = stream_.make_decoder(header.payload_length);
     if (header.version != 0) {
         if (header.isMandatory()) {
